@@ -87,7 +87,17 @@ func cmdRaceMix(args []string) {
 						ok = do("CONFIG", "SET", fmt.Sprintf("p%d", rng.Intn(3)), fmt.Sprint(rng.Intn(100)))
 						cnt.cfgset.Add(1)
 					case 1:
-						ok = do("CONFIG", "GET", fmt.Sprintf("p%d", rng.Intn(3)))
+						// by name, by several names, and with glob characters (a server that supports patterns enumerates its parameters)
+						switch rng.Intn(4) {
+						case 0:
+							ok = do("CONFIG", "GET", "*")
+						case 1:
+							ok = do("CONFIG", "GET", "p*")
+						case 2:
+							ok = do("CONFIG", "GET", "p0", "p1", "requirepass")
+						default:
+							ok = do("CONFIG", "GET", fmt.Sprintf("p%d", rng.Intn(3)))
+						}
 						cnt.cfgget.Add(1)
 					case 2:
 						ok = do("SET", k, "v")
